@@ -74,6 +74,15 @@ Section Csv.
   Definition decode_csv_checked (ncols : Z) (continue_mode : bool) (data : bytes) : res (list bytes) :=
     row <- decode_csv data ;;
     if negb (ncols =? 0) && negb (len row =? ncols) && negb continue_mode then Err 4 else Ok row.
+
+  (* the same with all three modes of invalid_line_mode: 1 "continue", 2 "fatal", anything else ("default", an unknown
+     word; 0 and 3 in the exchange format) takes the default branch of the switch.  "fatal" is logger.Fatalf - the process
+     ends by configuration, not by a crash: the distinguished error 5 (the harness' logger records it) *)
+  Definition decode_csv_mode (ncols mode : Z) (data : bytes) : res (list bytes) :=
+    row <- decode_csv data ;;
+    if negb (ncols =? 0) && negb (len row =? ncols) then
+      (if mode =? 2 then Err 5 else if mode =? 1 then Ok row else Err 4)
+    else Ok row.
 End Csv.
 
 (* ASCII instance of bytes.TrimSpace: '\t' '\n' '\v' '\f' '\r' ' ' *)
@@ -92,3 +101,5 @@ Fixpoint csv_line (delim : byte) (fields : list bytes) : bytes :=
 
 Definition csv_model (delim : byte) (ncols : Z) (continue_mode : bool) (data : bytes) : sx :=
   sx_of_res (fun row => SL (map SB row)) (decode_csv_checked ascii_trim_space delim ncols continue_mode data).
+Definition csv_model_mode (delim : byte) (ncols mode : Z) (data : bytes) : sx :=
+  sx_of_res (fun row => SL (map SB row)) (decode_csv_mode ascii_trim_space delim ncols mode data).
